@@ -51,6 +51,20 @@ def log_entry(op):
     return (METHOD[k], op[1])
 
 
+def logged_once(before, after, op):
+    """The log grew by exactly one entry naming this call (an add may record more keyword arguments
+    than the bib it was given, e.g. defaults - only the bib is compared)."""
+    if len(after) != len(before) + 1 or after[:-1] != before:
+        return False
+    want = log_entry(op)
+    got = after[-1]
+    if got[0] != want[0]:
+        return False
+    if op[0] == 'add':
+        return isinstance(got[1], tuple) and ('bib', op[1]) in got[1]
+    return got[1] == want[1]
+
+
 class Executor(object):
     """Executes explicit ops against the real HighJumpCompetition with the oracles of one check."""
 
@@ -142,7 +156,7 @@ class Executor(object):
         if k in TRIALS:
             self.hist_flags.add('accepted-trial')
         if chk == 'C02':
-            if after[3] != before[3] + (log_entry(op),):
+            if not logged_once(before[3], after[3], op):
                 raise Violation('accepted-call-not-logged-once', {'op': op, 'log_tail': repr(after[3][-3:])})
         prev = m.phase
         m.apply(op)
